@@ -29,6 +29,7 @@ theorem readOpt_size_body (rd rd' : Rd) (c : UInt8) (rest rest' : Bytes) (al : N
     · split at h
       · simp at h
       · simp at h; rw [← h.1.2.2]; simp
+  case alignNext => split at h <;> (try split at h) <;> simp at h
   all_goals first
     | (simp at h; done)
     | (simp at h; rw [← h.1.2.2]; simp)
@@ -95,7 +96,7 @@ theorem packBody_length (e : Endian) (body : Body) (vs vs1 : List Val) (w : Byte
         · simp at hp
         · simp only [Except.ok.injEq, Prod.mk.injEq] at hp
           rw [← hp.1]
-          have : (if n > 0 then n - s.length else 0) = 0 := by split <;> omega
+          have : n - s.length = 0 := by omega
           simp [this, zeros, bodySize, he]
       | int _ => simp [exactVal] at he
       | flt _ => simp [exactVal] at he
@@ -104,14 +105,20 @@ theorem packBody_length (e : Endian) (body : Body) (vs vs1 : List Val) (w : Byte
 theorem consOut_ok' (w bs : Bytes) (vs : List Val) (r : Except Err (Bytes × List Val))
     (h : consOut w r = .ok (bs, vs)) : ∃ bs1, r = .ok (bs1, vs) ∧ bs = w ++ bs1 := consOut_ok w bs vs r h
 
+theorem sizeInc_ok (size n m : Nat) (h : sizeInc size n = .ok m) : m = size + n := by
+  unfold sizeInc at h
+  split at h
+  · simp at h
+  · simp at h; exact h.symm
+
 theorem loop_size : ∀ (fuel : Nat) (rd : Rd) (fmt : Bytes) (len : Nat) (vs : List Val) (bs : Bytes) (vs' : List Val) (n : Nat),
     exactLoop fuel rd fmt vs = true → packLoop fuel rd fmt len vs = .ok (bs, vs') →
-    sizeLoop fuel rd fmt len = .ok n → len + bs.length < 2 ^ 64 → n = len + bs.length := by
+    sizeLoop fuel rd fmt len = .ok n → n = len + bs.length := by
   intro fuel
   induction fuel with
   | zero => intro rd fmt len vs bs vs' n hx; simp [exactLoop] at hx
   | succ fuel ih =>
-    intro rd fmt len vs bs vs' n hx hp hs hlt
+    intro rd fmt len vs bs vs' n hx hp hs
     cases fmt with
     | nil =>
       simp only [sizeLoop, Except.ok.injEq] at hs
@@ -132,7 +139,7 @@ theorem loop_size : ∀ (fuel : Nat) (rd : Rd) (fmt : Bytes) (len : Nat) (vs : L
         simp only [hr] at hs
         simp only [hpk] at hp hx
         cases opt with
-        | nop => exact ih rd' rest' len vs bs vs' n hx hp hs hlt
+        | nop => exact ih rd' rest' len vs bs vs' n hx hp hs
         | item al ao body =>
           obtain ⟨hz, hl⟩ := readOpt_size_body rd rd' c rest rest' al ao body hr
           simp only at hp hx hs
@@ -140,50 +147,56 @@ theorem loop_size : ∀ (fuel : Nat) (rd : Rd) (fmt : Bytes) (len : Nat) (vs : L
           | error e => simp [ha] at hp
           | ok pad =>
             simp only [ha] at hp hs
-            cases ao with
-            | true =>
-              simp only [if_true, Bool.true_or] at hp hx hs
-              obtain ⟨bs1, hb1, hbs⟩ := consOut_ok _ _ _ _ hp
-              subst hbs
-              simp only [List.length_append, zeros_length] at hlt ⊢
-              have hm : (len + pad) % 2 ^ 64 = len + pad := Nat.mod_eq_of_lt (by omega)
-              rw [hm] at hs
-              have := ih rd' rest' (len + pad) vs bs1 vs' n hx hb1 hs (by omega)
-              omega
-            | false =>
-              simp only [Bool.false_eq_true, if_false, Bool.false_or] at hp hx hs
-              cases hb : packBody rd.endian body vs with
-              | error e => simp [hb] at hp
-              | ok r2 =>
-                obtain ⟨w, vs1⟩ := r2
-                simp only [hb] at hp
+            cases h1 : sizeInc len pad with
+            | error e => simp [h1] at hs
+            | ok size1 =>
+              have e1 := sizeInc_ok _ _ _ h1
+              subst e1
+              simp only [h1] at hs
+              cases ao with
+              | true =>
+                simp only [if_true, Bool.true_or] at hp hx hs
                 obtain ⟨bs1, hb1, hbs⟩ := consOut_ok _ _ _ _ hp
                 subst hbs
-                simp only [List.length_append, zeros_length] at hlt ⊢
-                by_cases hpb : body = .padByte
-                · subst hpb
-                  simp only [beq_self_eq_true, if_true] at hx
-                  have hw := packBody_length rd.endian .padByte vs vs1 w hb hz hl (.inl rfl)
-                  simp only [packBody, Except.ok.injEq, Prod.mk.injEq] at hb
-                  rw [← hb.2] at hb1
-                  have hm : (len + pad + bodySize .padByte) % 2 ^ 64 = len + pad + w.length := by
-                    rw [hw]; exact Nat.mod_eq_of_lt (by rw [← hw]; omega)
-                  rw [hm] at hs
-                  have := ih rd' rest' (len + pad + w.length) vs bs1 vs' n hx hb1 hs (by omega)
-                  omega
-                · have hne : (body == Body.padByte) = false := by simpa using hpb
-                  simp only [hne, Bool.false_eq_true, if_false] at hx
-                  cases vs with
-                  | nil => simp at hx
-                  | cons v vt =>
-                    simp only [Bool.and_eq_true] at hx
-                    have hw := packBody_length rd.endian body (v :: vt) vs1 w hb hz hl (.inr ⟨v, vt, rfl, hx.1⟩)
-                    obtain ⟨hv1, _⟩ := unpackBody_packBody rd.endian body v vt vs1 w [] hb hx.1
-                    subst hv1
-                    have hm : (len + pad + bodySize body) % 2 ^ 64 = len + pad + w.length := by
-                      rw [← hw]; exact Nat.mod_eq_of_lt (by omega)
-                    rw [hm] at hs
-                    have := ih rd' rest' (len + pad + w.length) vs1 bs1 vs' n hx.2 hb1 hs (by omega)
-                    omega
+                simp only [List.length_append, zeros_length]
+                have := ih rd' rest' (len + pad) vs bs1 vs' n hx hb1 hs
+                omega
+              | false =>
+                simp only [Bool.false_eq_true, if_false, Bool.false_or] at hp hx hs
+                cases hb : packBody rd.endian body vs with
+                | error e => simp [hb] at hp
+                | ok r2 =>
+                  obtain ⟨w, vs1⟩ := r2
+                  simp only [hb] at hp
+                  obtain ⟨bs1, hb1, hbs⟩ := consOut_ok _ _ _ _ hp
+                  subst hbs
+                  simp only [List.length_append, zeros_length]
+                  cases h2 : sizeInc (len + pad) (bodySize body) with
+                  | error e => simp [h2] at hs
+                  | ok size2 =>
+                    have e2 := sizeInc_ok _ _ _ h2
+                    subst e2
+                    simp only [h2] at hs
+                    by_cases hpb : body = .padByte
+                    · subst hpb
+                      simp only [beq_self_eq_true, if_true] at hx
+                      have hw := packBody_length rd.endian .padByte vs vs1 w hb hz hl (.inl rfl)
+                      simp only [packBody, Except.ok.injEq, Prod.mk.injEq] at hb
+                      rw [← hb.2] at hb1
+                      rw [← hw] at hs
+                      have := ih rd' rest' (len + pad + w.length) vs bs1 vs' n hx hb1 hs
+                      omega
+                    · have hne : (body == Body.padByte) = false := by simpa using hpb
+                      simp only [hne, Bool.false_eq_true, if_false] at hx
+                      cases vs with
+                      | nil => simp at hx
+                      | cons v vt =>
+                        simp only [Bool.and_eq_true] at hx
+                        have hw := packBody_length rd.endian body (v :: vt) vs1 w hb hz hl (.inr ⟨v, vt, rfl, hx.1⟩)
+                        obtain ⟨hv1, _⟩ := unpackBody_packBody rd.endian body v vt vs1 w [] hb hx.1
+                        subst hv1
+                        rw [← hw] at hs
+                        have := ih rd' rest' (len + pad + w.length) vs1 bs1 vs' n hx.2 hb1 hs
+                        omega
 
 end GoluaVerif.Model.Pack
